@@ -392,15 +392,21 @@ def shard_service(task):
   vios, st = {}, {'cases': 0, 'suggestions': 0, 'refused': {}, 'completed': {}, 'deviation_runs': 0, 'max_draws': 0}
   s = vizier_service.VizierServicer(database_url=None)
   n = 0
-  for keys in task['spaces']:
-    for algo in task['algos']:
+  # one long-lived server; per algorithm the studies on the different spaces follow one another under ONE name (create, run,
+  # delete, create again with another search space): nothing of the earlier study may answer for the later one
+  for algo in task['algos']:
+    for keys in list(task['spaces']) + list(task['spaces'])[:1]:
       n += 1
       st['cases'] += 1
       prob = problem(keys)
       sc = svz.StudyConfig.from_problem(prob)
       sc.algorithm = algo
       try:
-        stp = s.CreateStudy(svc.vs.CreateStudyRequest(parent=svc.OWNER, study=study_pb2.Study(display_name='c03-%d' % n, study_spec=sc.to_proto())))
+        try:
+          s.DeleteStudy(svc.vs.DeleteStudyRequest(name='%s/studies/c03-%s' % (svc.OWNER, algo)))
+        except Exception:  # pylint: disable=broad-except
+          pass
+        stp = s.CreateStudy(svc.vs.CreateStudyRequest(parent=svc.OWNER, study=study_pb2.Study(display_name='c03-%s' % algo, study_spec=sc.to_proto())))
         study = clients.Study(vizier_client.VizierClient(stp.name, 'cl', s))
         ok = True
         for r in range(task['rounds']):
